@@ -863,6 +863,7 @@ class DBusObjectHandler :
 
         if msg.expectReply:
             def send_reply(return_values):
+                result = return_values
                 if isinstance(return_values, (list, tuple)):
                     if m.nret == 1:
                         return_values = [return_values]
@@ -876,6 +877,9 @@ class DBusObjectHandler :
                     signature=m.sigOut,
                 )
                 self.conn.sendMessage(r)
+                # the method may have handed the same Deferred to several
+                # callers: whoever comes next on it sees the same result
+                return result
 
             def send_error(err):
                 e = err.value
